@@ -195,6 +195,37 @@ def sub_opt_rules(bi, oi, src, acc):
     return None
 
 
+# ---- (1d) replacing a disabled rule keeps it disabled -----------------------------------------------------------
+def sub_at_disabled(acc):
+    docs = docs_small()[::3] + WARM_DOCS
+    for bi, base in enumerate(BASES):
+        for r in STUB_RULES:
+            acc.case()
+            plain = C.build(base, fresh=True)
+            plain.disable([r])
+            repl = C.build(base, fresh=True)
+            repl.disable([r])
+            # what a plugin does when it wraps a rule: ruler.at(name, fn, {"alt": ...}) - here with the original fn
+            for ruler in (repl.block.ruler, repl.inline.ruler, repl.core.ruler, repl.inline.ruler2):
+                for rule in list(ruler.__rules__):
+                    if rule.name == r:
+                        ruler.at(r, rule.fn, {"alt": list(rule.alt)})
+            if plain.get_active_rules() != repl.get_active_rules():
+                acc.violation("at", "replacing a disabled rule changes the active rules", {"base": bi, "rule": r},
+                              f"ruler.at({r!r}, ...) on a disabled rule: active rules {repl.get_active_rules()} != {plain.get_active_rules()}")
+                continue
+            acc.sig(("at", bi, r))
+            for d in docs:
+                x = acc.call(plain.parse, d)
+                y = acc.call(repl.parse, d)
+                if x is CRASH or y is CRASH:
+                    continue
+                if [t.as_dict() for t in x] != [t.as_dict() for t in y]:
+                    acc.violation("at", "replacing a disabled rule changes the tokens", {"base": bi, "rule": r, "src": d},
+                                  f"after ruler.at({r!r}, same function) on the disabled rule the document parses differently")
+                    break
+
+
 # ---- (1c) code off -----------------------------------------------------------------------------------------
 # one-block leaves whose continuation lines are not subject to the lazy-continuation indentation quirks
 CODE_LEAVES = ["a", "# a", "---", "- a", "1. a", "> a", "```\nx\n```", "[a]: /u", "a|b\n-|-", "<div>"]
@@ -325,10 +356,15 @@ PROBES = ["a *b* `c`\n\n> q\n> > r\n\n- l\n  - m\n    - n\n", "<div>x</div>\n\na
           "```py\nx\n```\n\n![i](j)  \nk\nl\n", "http://a.b www.c.d\n", "[r]\n\n[r]: /u 't'\n", "|a|b|\n|-|-|\n|c|d|\n"]
 
 
+def json_safe(d):
+    return {k: (v if not callable(v) else "fn") for k, v in d.items()}
+
+
 def sub_routes(acc):
     from markdown_it import MarkdownIt
     from ..configs import StubLinkify
 
+    defaults = {p: json_safe(dict(MarkdownIt(p).options)) for p in ("commonmark", "js-default", "zero", "gfm-like")}
     for preset in ("commonmark", "js-default", "zero", "gfm-like"):
         for opts, routes in ((ROUTE_OPTS, 3), (ROUTE_OPTS2, 2)):
             for k, v in opts:
@@ -365,6 +401,12 @@ def sub_routes(acc):
                                       f"route {i} renders the probes differently from the constructor route")
                         break
                 acc.sig(("routes", preset, k, repr(v), tuple(outs or ())))
+                now = json_safe(dict(MarkdownIt(preset).options))
+                if now != defaults[preset]:
+                    acc.violation("routes", "a later plain instance of the preset inherits an earlier options_update",
+                                  {"preset": preset, "opt": k, "value": repr(v), "route": 0},
+                                  f"MarkdownIt({preset!r}) now has options {now}, the preset's defaults are {defaults[preset]}")
+                    defaults[preset] = now
     acc.sample("routes", {"preset": "commonmark", "opt": "breaks", "value": True}, 1)
 
 
@@ -534,6 +576,7 @@ def shards(tier):
             sh.append(("idef", bi, f, 4 if th else 3))
     sh.append(("routes",))
     sh.append(("codeoff",))
+    sh.append(("at",))
     for bi in range(len(BASES)):
         for fi in range(len(TOGGLE_FIRSTS)):
             for part in range(4):
@@ -600,6 +643,9 @@ def run_shard(sh, acc):
     elif kind == "codeoff":
         sub_code_off(acc)
         acc.sample(kind, {"src": "    # a\n"}, 1)
+    elif kind == "at":
+        sub_at_disabled(acc)
+        acc.sample(kind, {"history": ["disable('table')", "block.ruler.at('table', fn, alt)", "parse('|a|\\n|-|')"]}, 1)
     elif kind == "toggle2":
         sub_toggle_pairs(sh[1], sh[2], sh[3], acc)
         acc.sample("toggle", {"base": BASES[sh[1]], "history": ["render(warm-up)", "disable(['emphasis', 'strikethrough'])", "render(probe)"]}, 1)
@@ -642,6 +688,8 @@ def check_case(case, acc):
         sub_routes(acc)
     elif sub == "codeoff":
         sub_code_off(acc)
+    elif sub == "at":
+        sub_at_disabled(acc)
     elif sub == "toggle":
         if isinstance(case.get("action"), list) and len(case["action"]) == 2 and isinstance(case["action"][1], list):
             sub_toggle_pairs(case["base"], 0, 1, acc)
